@@ -396,8 +396,22 @@ func GenerateUDP(seed uint64, tier string) *Plan {
 	c.Ticker = r.Chance(1, 6)
 	c.TickMs = 10
 	n := r.Range(1, 14)
+	flood := r.Chance(1, 12)
+	if flood {
+		// many small datagrams queued in the socket at once: more than any
+		// per-wake-up batch a loop might take
+		n = r.Range(70, 220)
+	}
 	for i := 0; i < n; i++ {
 		d := Dgram{Sender: r.Intn(u.Senders)}
+		if flood {
+			d.Size = r.Range(1, 8)
+			if r.Chance(1, 10) {
+				d.Reply = append(d.Reply, WOp{M: "write", N: r.Range(1, 8)})
+			}
+			u.Dgrams = append(u.Dgrams, d)
+			continue
+		}
 		switch r.Intn(10) {
 		case 0:
 			d.Size = 0
